@@ -1,14 +1,19 @@
 package main
 
 import (
+	"encoding/binary"
 	"fmt"
+	"math"
 	"sort"
+	"strconv"
 	"strings"
 
 	"github.com/CrowdStrike/csproto"
 	gogoproto "github.com/gogo/protobuf/proto"
 	gogodesc "github.com/gogo/protobuf/protoc-gen-gogo/descriptor"
+	gogotypes "github.com/gogo/protobuf/types"
 	protoV1 "github.com/golang/protobuf/proto" //nolint
+	"google.golang.org/protobuf/encoding/protowire"
 	"google.golang.org/protobuf/proto"
 	"google.golang.org/protobuf/reflect/protodesc"
 	"google.golang.org/protobuf/reflect/protoreflect"
@@ -16,35 +21,201 @@ import (
 	"google.golang.org/protobuf/runtime/protoimpl"
 	"google.golang.org/protobuf/types/descriptorpb"
 	"google.golang.org/protobuf/types/dynamicpb"
+	"google.golang.org/protobuf/types/known/wrapperspb"
 
 	"verif/harness/internal/hx"
 )
 
-// Extension descriptors of the three flavours, all int64-valued extensions of MessageOptions:
+// Extension descriptors of the three flavours, all extensions of MessageOptions, one per value kind
+// (int64, string, bytes, bool, enum, message, double):
 //
-//	v2[n]     protoreflect.ExtensionType (dynamicpb) of google.protobuf.MessageOptions
-//	v1[n]     *golang/protobuf ExtensionDesc (= protoimpl.ExtensionInfo) of descriptorpb.MessageOptions
-//	gogo[n]   *gogo ExtensionDesc of gogo's descriptor.MessageOptions
-var (
-	extNums  = []int32{50100, 50101, 50102, 50103}
-	v2Exts   = map[int32]protoreflect.ExtensionType{}
-	v1Exts   = map[int32]*protoV1.ExtensionDesc{}
-	gogoExts = map[int32]*gogoproto.ExtensionDesc{}
+//	v2[n]     protoreflect.ExtensionType (dynamicpb) of google.protobuf.MessageOptions      n = 50100 + kind
+//	v1[n]     *golang/protobuf ExtensionDesc (= protoimpl.ExtensionInfo) of descriptorpb.MessageOptions   n = 50200 + kind
+//	gogo[n]   *gogo ExtensionDesc of gogo's descriptor.MessageOptions, for all of those numbers
+type xkind int
+
+const (
+	xkI64 xkind = iota
+	xkStr
+	xkBytes
+	xkBool
+	xkEnum
+	xkMsg
+	xkDouble
+	nxk
 )
+
+func kindOf(n int32) xkind { return xkind(n % 100) }
+
+var (
+	v2Nums, v1Nums, extNums []int32
+	v2Exts                  = map[int32]protoreflect.ExtensionType{}
+	v1Exts                  = map[int32]*protoV1.ExtensionDesc{}
+	gogoExts                = map[int32]*gogoproto.ExtensionDesc{}
+)
+
+// the value an extension of kind k holds for the abstract value code (what the model calls Z), in the Go
+// shape the descriptor flavour wants; normCode maps an arbitrary integer into the kind's range first
+func normCode(k xkind, v int64) int64 {
+	switch k {
+	case xkBool:
+		return v & 1
+	case xkEnum:
+		if v < 0 {
+			v = -(v + 1)
+		}
+		return 1 + v%18 // FieldDescriptorProto.Type has the values 1..18
+	case xkDouble:
+		if f := math.Float64frombits(uint64(v)); f != f {
+			return v &^ (0x7ff << 52) // no NaNs: runtimes may quiet them
+		}
+	}
+	return v
+}
+
+func toGo(fl string, pointers bool, k xkind, code int64) interface{} {
+	if fl == "v2" {
+		switch k {
+		case xkI64:
+			return code
+		case xkStr:
+			return strconv.FormatInt(code, 10)
+		case xkBytes:
+			return binary.BigEndian.AppendUint64(nil, uint64(code))
+		case xkBool:
+			return code == 1
+		case xkEnum:
+			return protoreflect.EnumNumber(code)
+		case xkDouble:
+			return math.Float64frombits(uint64(code))
+		default:
+			dm := dynamicpb.NewMessage(v2Exts[50100+int32(xkMsg)].TypeDescriptor().Message())
+			dm.Set(dm.Descriptor().Fields().ByNumber(1), protoreflect.ValueOfInt64(code))
+			return dm
+		}
+	}
+	gogo := fl == "gogo"
+	switch k {
+	case xkI64:
+		if pointers {
+			return &code
+		}
+		return code
+	case xkStr:
+		s := strconv.FormatInt(code, 10)
+		if pointers {
+			return &s
+		}
+		return s
+	case xkBytes:
+		return binary.BigEndian.AppendUint64(nil, uint64(code))
+	case xkBool:
+		b := code == 1
+		if pointers {
+			return &b
+		}
+		return b
+	case xkEnum:
+		if gogo {
+			e := gogodesc.FieldDescriptorProto_Type(code)
+			return &e
+		}
+		e := descriptorpb.FieldDescriptorProto_Type(code)
+		if pointers {
+			return &e
+		}
+		return e
+	case xkDouble:
+		f := math.Float64frombits(uint64(code))
+		if pointers {
+			return &f
+		}
+		return f
+	default:
+		if gogo {
+			return &gogotypes.Int64Value{Value: code}
+		}
+		return &wrapperspb.Int64Value{Value: code}
+	}
+}
+
+// the abstract value code of whatever GetExtension handed back
+func fromGo(v interface{}) string {
+	switch x := v.(type) {
+	case int64:
+		return hx.I(x)
+	case *int64:
+		return hx.I(*x)
+	case string:
+		n, _ := strconv.ParseInt(x, 10, 64)
+		return hx.I(n)
+	case *string:
+		n, _ := strconv.ParseInt(*x, 10, 64)
+		return hx.I(n)
+	case []byte:
+		if len(x) != 8 {
+			return "?len"
+		}
+		return hx.I(int64(binary.BigEndian.Uint64(x)))
+	case bool:
+		if x {
+			return hx.I(1)
+		}
+		return hx.I(0)
+	case *bool:
+		if *x {
+			return hx.I(1)
+		}
+		return hx.I(0)
+	case protoreflect.EnumNumber:
+		return hx.I(int64(x))
+	case descriptorpb.FieldDescriptorProto_Type:
+		return hx.I(int64(x))
+	case *descriptorpb.FieldDescriptorProto_Type:
+		return hx.I(int64(*x))
+	case *gogodesc.FieldDescriptorProto_Type:
+		return hx.I(int64(*x))
+	case float64:
+		return hx.I(int64(math.Float64bits(x)))
+	case *float64:
+		return hx.I(int64(math.Float64bits(*x)))
+	case *wrapperspb.Int64Value:
+		return hx.I(x.GetValue())
+	case *gogotypes.Int64Value:
+		return hx.I(x.GetValue())
+	case proto.Message:
+		rm := x.ProtoReflect()
+		return hx.I(rm.Get(rm.Descriptor().Fields().ByNumber(1)).Int())
+	}
+	return fmt.Sprintf("?%T", v)
+}
 
 func setupExts() {
 	fdp := &descriptorpb.FileDescriptorProto{
 		Name:       proto.String("verif/ext.proto"),
 		Package:    proto.String("verif.ext"),
 		Syntax:     proto.String("proto2"),
-		Dependency: []string{"google/protobuf/descriptor.proto"},
+		Dependency: []string{"google/protobuf/descriptor.proto", "google/protobuf/wrappers.proto"},
 	}
-	for _, n := range extNums[:2] {
-		fdp.Extension = append(fdp.Extension, &descriptorpb.FieldDescriptorProto{
+	v2type := map[xkind]descriptorpb.FieldDescriptorProto_Type{xkI64: descriptorpb.FieldDescriptorProto_TYPE_INT64, xkStr: descriptorpb.FieldDescriptorProto_TYPE_STRING,
+		xkBytes: descriptorpb.FieldDescriptorProto_TYPE_BYTES, xkBool: descriptorpb.FieldDescriptorProto_TYPE_BOOL, xkEnum: descriptorpb.FieldDescriptorProto_TYPE_ENUM,
+		xkMsg: descriptorpb.FieldDescriptorProto_TYPE_MESSAGE, xkDouble: descriptorpb.FieldDescriptorProto_TYPE_DOUBLE}
+	for k := xkind(0); k < nxk; k++ {
+		n := 50100 + int32(k)
+		v2Nums = append(v2Nums, n)
+		v1Nums = append(v1Nums, 50200+int32(k))
+		x := &descriptorpb.FieldDescriptorProto{
 			Name: proto.String(fmt.Sprintf("e%d", n)), Number: proto.Int32(n), Extendee: proto.String(".google.protobuf.MessageOptions"),
-			Type: descriptorpb.FieldDescriptorProto_TYPE_INT64.Enum(), Label: descriptorpb.FieldDescriptorProto_LABEL_OPTIONAL.Enum(),
-			JsonName: proto.String(fmt.Sprintf("e%d", n))})
+			Type: v2type[k].Enum(), Label: descriptorpb.FieldDescriptorProto_LABEL_OPTIONAL.Enum()}
+		switch k {
+		case xkEnum:
+			x.TypeName = proto.String(".google.protobuf.FieldDescriptorProto.Type")
+		case xkMsg:
+			x.TypeName = proto.String(".google.protobuf.Int64Value")
+		}
+		fdp.Extension = append(fdp.Extension, x)
 	}
+	extNums = append(append([]int32{}, v2Nums...), v1Nums...)
 	fd, err := protodesc.NewFile(fdp, protoregistry.GlobalFiles)
 	hx.Must(err)
 	for i := 0; i < fd.Extensions().Len(); i++ {
@@ -53,15 +224,32 @@ func setupExts() {
 		v2Exts[int32(xd.Number())] = xt
 		_ = protoregistry.GlobalTypes.RegisterExtension(xt)
 	}
-	for _, n := range extNums[2:] {
-		xi := &protoimpl.ExtensionInfo{ExtendedType: (*descriptorpb.MessageOptions)(nil), ExtensionType: (*int64)(nil), Field: n,
-			Name: fmt.Sprintf("verif.ext.l%d", n), Tag: fmt.Sprintf("varint,%d,opt,name=l%d", n, n)}
+	tagOf := func(k xkind, n int32, name string) string {
+		switch k {
+		case xkStr, xkBytes, xkMsg:
+			return fmt.Sprintf("bytes,%d,opt,name=%s", n, name)
+		case xkDouble:
+			return fmt.Sprintf("fixed64,%d,opt,name=%s", n, name)
+		case xkEnum:
+			return fmt.Sprintf("varint,%d,opt,name=%s,enum=google.protobuf.FieldDescriptorProto_Type", n, name)
+		}
+		return fmt.Sprintf("varint,%d,opt,name=%s", n, name)
+	}
+	v1type := map[xkind]interface{}{xkI64: (*int64)(nil), xkStr: (*string)(nil), xkBytes: []byte(nil), xkBool: (*bool)(nil),
+		xkEnum: (*descriptorpb.FieldDescriptorProto_Type)(nil), xkMsg: (*wrapperspb.Int64Value)(nil), xkDouble: (*float64)(nil)}
+	gogotype := map[xkind]interface{}{xkI64: (*int64)(nil), xkStr: (*string)(nil), xkBytes: []byte(nil), xkBool: (*bool)(nil),
+		xkEnum: (*gogodesc.FieldDescriptorProto_Type)(nil), xkMsg: (*gogotypes.Int64Value)(nil), xkDouble: (*float64)(nil)}
+	for _, n := range v1Nums {
+		k := kindOf(n)
+		xi := &protoimpl.ExtensionInfo{ExtendedType: (*descriptorpb.MessageOptions)(nil), ExtensionType: v1type[k], Field: n,
+			Name: fmt.Sprintf("verif.ext.l%d", n), Tag: tagOf(k, n, fmt.Sprintf("l%d", n))}
 		v1Exts[n] = xi
 		_ = protoregistry.GlobalTypes.RegisterExtension(xi)
 	}
 	for _, n := range extNums {
-		gd := &gogoproto.ExtensionDesc{ExtendedType: (*gogodesc.MessageOptions)(nil), ExtensionType: (*int64)(nil), Field: n,
-			Name: fmt.Sprintf("verif.ext.g%d", n), Tag: fmt.Sprintf("varint,%d,opt,name=g%d", n, n)}
+		k := kindOf(n)
+		gd := &gogoproto.ExtensionDesc{ExtendedType: (*gogodesc.MessageOptions)(nil), ExtensionType: gogotype[k], Field: n,
+			Name: fmt.Sprintf("verif.ext.g%d", n), Tag: tagOf(k, n, fmt.Sprintf("g%d", n))}
 		gogoproto.RegisterExtension(gd)
 		gogoExts[n] = gd
 	}
@@ -74,7 +262,7 @@ func descFor(fl string, n int32) interface{} {
 		if x, ok := v2Exts[n]; ok {
 			return x
 		}
-		return v2Exts[extNums[0]] // same flavour, other number never requested
+		return v2Exts[v2Nums[0]] // same flavour, other number never requested
 	case "v1":
 		if x, ok := v1Exts[n]; ok {
 			return x
@@ -135,9 +323,9 @@ func fmtNums(ns []int32) string {
 
 func streamC12(r *hx.Rng) {
 	setupExts()
-	n := 300
+	n := 3000
 	if thorough {
-		n = 5000
+		n = 40000
 	}
 	type rtcase struct {
 		rt      string
@@ -150,7 +338,7 @@ func streamC12(r *hx.Rng) {
 		{"googlev1", func() interface{} { return &LegacyV1{} }, nil},
 		{"unknown", func() interface{} { return new(int) }, nil},
 	}
-	flNums := map[string][]int32{"v2": extNums[:2], "v1": extNums[2:], "gogo": extNums, "other": {1}}
+	flNums := map[string][]int32{"v2": v2Nums, "v1": v1Nums, "gogo": extNums, "other": {1}}
 	for i := 0; i < n; i++ {
 		rc := rts[i%len(rts)]
 		if i%len(rts) >= 2 && i%7 != 0 {
@@ -175,7 +363,7 @@ func streamC12(r *hx.Rng) {
 			num := nums[r.Intn(len(nums))]
 			switch c := r.Intn(12); {
 			case c < 4:
-				o = xop{typ: "set", fl: fl, n: num, v: int64(r.U64() >> uint(r.Intn(64)))}
+				o = xop{typ: "set", fl: fl, n: num, v: normCode(kindOf(num), int64(r.U64()>>uint(r.Intn(64))))}
 			case c < 6:
 				o = xop{typ: "get", fl: fl, n: num}
 			case c < 8:
@@ -198,15 +386,16 @@ func streamC12(r *hx.Rng) {
 				o.n = extNums[0]
 			}
 			d := descFor(o.fl, o.n)
+			if o.typ == "get" && o.fl == "v2" && kindOf(o.n) == xkMsg && rc.rt == "google" && !proto.HasExtension(m.(proto.Message), d.(protoreflect.ExtensionType)) {
+				// protobuf-go's own proto.GetExtension panics ("assigning invalid zero-value message") for an unset
+				// message-typed extension whose type is dynamic: a quirk of the owning runtime, not of the shim
+				o.typ = "has"
+			}
 			before := ownerSet(rc.rt, m)
 			out := guard(func() string {
 				switch o.typ {
 				case "set":
-					var val interface{} = o.v
-					if o.fl == "gogo" || (o.fl == "v1" && rc.rt != "google") {
-						vv := o.v
-						val = &vv
-					}
+					val := toGo(o.fl, o.fl == "gogo" || (o.fl == "v1" && rc.rt != "google"), kindOf(o.n), o.v)
 					if err := csproto.SetExtension(m, d, val); err != nil {
 						return "err"
 					}
@@ -219,13 +408,7 @@ func streamC12(r *hx.Rng) {
 					if !csproto.HasExtension(m, d) {
 						return "val:none"
 					}
-					switch tv := v.(type) {
-					case int64:
-						return "val:" + hx.I(tv)
-					case *int64:
-						return "val:" + hx.I(*tv)
-					}
-					return fmt.Sprintf("val:?%T", v)
+					return "val:" + fromGo(v)
 				case "has":
 					return fmt.Sprint("bool:", csproto.HasExtension(m, d))
 				case "clear":
@@ -280,6 +463,11 @@ func streamC12(r *hx.Rng) {
 				if accepted && csproto.HasExtension(m, d) {
 					fail("after ClearExtension, HasExtension is still true", cs, "false", "true", "ext-clear")
 				}
+				if accepted {
+					if b, err := ownerMarshalExt(rc.rt, m); err == nil && hasFieldNumber(b, o.n) {
+						fail("a cleared extension still appears in the marshaled bytes", cs, "absent", hx.B(b), "ext-clear")
+					}
+				}
 				if !accepted && (fmt.Sprint(before) != fmt.Sprint(after) || out != "docpanic") {
 					fail("ClearExtension with a mismatching descriptor did not panic as documented / modified the message", cs, "documented panic", out, "ext-mismatch")
 				}
@@ -311,6 +499,24 @@ func streamC12(r *hx.Rng) {
 		}
 		sink.Add("ext-history", fmt.Sprintf("S EXT %s %s", rc.rt, strings.Join(toks, " ")), strings.Join(outs, " "), len(toks) >= 2)
 	}
+}
+
+func hasFieldNumber(b []byte, n int32) bool {
+	for len(b) > 0 {
+		num, typ, k := protowire.ConsumeTag(b)
+		if k < 0 {
+			return false
+		}
+		if int32(num) == n {
+			return true
+		}
+		l := protowire.ConsumeFieldValue(num, typ, b[k:])
+		if l < 0 {
+			return false
+		}
+		b = b[k+l:]
+	}
+	return false
 }
 
 func ownerMarshalExt(rt string, m interface{}) ([]byte, error) {
